@@ -1,6 +1,6 @@
 (* C05 — statements only. *)
 From Coq Require Import List Arith Bool Permutation QArith.
-From TFV Require Import Amp.Einsum Amp.Einsum_proofs Amp.Einsum_path.
+From TFV Require Import Amp.Einsum Amp.Einsum_proofs Amp.Einsum_path Amp.Einsum_order Amp.Einsum_order_proofs.
 Import ListNotations.
 
 (* the reference value does not depend on the order in which operands are multiplied *)
@@ -65,6 +65,40 @@ Proof.
   exact (einsum_spec_perm K kzero kone kadd kmul H1 H2 H3 H4 H5).
 Qed.
 Print Assumptions C05_operand_order_irrelevant.
+
+(* one step of the routine below the contraction path (tensor_einsum_reduce_sum): every operand is transposed to
+   the sorted order of ITS indices and reshaped into the common sorted order of ALL indices of the step.  With the
+   sort key (order value, index name) of the code after /repo 64ae4f6 the step IS the reference contraction of its
+   operands, for every order table (ties included), every size table and all operands without a repeated index
+   (operands with one are handed to tf.einsum before this point) *)
+Theorem C05_reduce_sum_step_correct :
+  forall (K : Type) (kzero kone : K) (kadd kmul : K -> K -> K),
+    (forall a b : K, kadd a b = kadd b a) ->
+    (forall a b c : K, kadd a (kadd b c) = kadd (kadd a b) c) ->
+    (forall a : K, kadd kzero a = a) ->
+    forall (sz : list (nat * nat)) (ord : key) (part : list (tensor K)) (keep : list nat),
+    (forall t : tensor K, In t part -> NoDup (t_idx K t)) ->
+    reduce_sum_step K kzero kone kadd kmul sz (sort_new ord) part keep =
+    einsum_spec K kzero kone kadd kmul sz part keep.
+Proof. exact reduce_sum_step_new_correct. Qed.
+Print Assumptions C05_reduce_sum_step_correct.
+
+(* the transposed layout and the layout the product reads agree: sorting an operand's indices gives the common
+   sorted order restricted to them *)
+Theorem C05_sort_consistent :
+  forall (ord : key) (l all : list nat), NoDup l -> NoDup all -> incl l all ->
+    sort_new ord l = filter (fun i : nat => existsb (Nat.eqb i) l) (sort_new ord all).
+Proof. exact sort_new_consistent. Qed.
+Print Assumptions C05_sort_consistent.
+
+(* with the key of the code BEFORE 64ae4f6 (order value only, Python's stable sort) the statement is false:
+   "cbd,dbc->b" with c and d at the same place *)
+Theorem C05_reduce_sum_step_old_refuted :
+  exists (sz : list (nat * nat)) (ord : key) (part : list (tensor Qc)) (keep : list nat),
+    (forall t : tensor Qc, In t part -> NoDup (t_idx Qc t)) /\
+    reduce_sum_step_q_old ord sz part keep <> einsum_q sz part keep.
+Proof. exact reduce_sum_step_old_refuted. Qed.
+Print Assumptions C05_reduce_sum_step_old_refuted.
 
 (* the laws are satisfiable (natural numbers) *)
 Example C05_laws_nat : semiring_laws nat 0%nat 1%nat Nat.add Nat.mul.
